@@ -154,6 +154,21 @@ func (sc *vSched) exec(st vStep) error {
 		return sc.respondPoll(st, http.StatusOK, b)
 	case "RelayRejected":
 		return sc.await(st, "rs.exit.rejected", sc.wait, evExit("rejected", "badurl"))
+	case "PhantomGet", "PhantomRet":
+		// the rig occupies / frees a slot itself, through the real tokens object,
+		// while the main loop is parked in the poll request the broker holds
+		if sc.poll == nil {
+			return sc.diverged(st, "phantom step although no poll is held")
+		}
+		if st.Act == "PhantomGet" {
+			if uint(len(tokens.ch)) >= tokens.capacity {
+				return sc.diverged(st, "phantom get at capacity would block")
+			}
+			tokens.get()
+		} else {
+			tokens.ret()
+		}
+		return nil
 	case "RelayOK":
 		return nil // no observable event of its own
 	case "HandlerStart":
@@ -286,6 +301,7 @@ func TestVerifC16Replay(t *testing.T) {
 	r := vNewRig(t)
 	defer r.finish()
 	r.hGate = true
+	r.phG = vGID()
 	r.startProxy()
 	sc := &vSched{r: r, wait: time.Duration(r.plan.WaitMS) * time.Millisecond, count: map[string]int{}, rreq: map[int]*vRelayReq{}}
 	var err error
